@@ -27,7 +27,7 @@ def g_default(d, table):
 def g_cmd(c, table):
     k = c[0]
     if k == 'iter':
-        return "QIter %s %s %s %s" % (g_src(c[1]), g_path(c[2], table), g_bool(c[3]), g_bool(c[4]))
+        return "QIter %s %s %s %s %s" % (g_src(c[1]), g_path(c[2], table), g_bool(c[3]), g_bool(c[4]), g_bool(c[5] if len(c) > 5 else True))
     if k == 'next':
         return "QNext %s" % g_nat(c[1])
     if k == 'drain':
